@@ -358,13 +358,31 @@ def run_workers(res, binpath, base_args, tier, seed, scratch, nshards=NCPU, case
         time.sleep(0.05)
 
 
+CRATE_DIRS = ["file-formats/archives/wow-mpq", "file-formats/graphics/wow-m2", "file-formats/graphics/wow-wmo", "file-formats/graphics/wow-blp",
+              "file-formats/world-data/wow-adt", "file-formats/world-data/wow-wdt", "file-formats/world-data/wow-wdl", "file-formats/database/wow-cdbc",
+              "ffi/storm-ffi", "warcraft-rs"]
+
+
 def hang_site(stacks):
+    """First frame of a gdb stack that lies in the code under test: '<fn>@<crate>/<file>' (no line numbers).
+    gdb prints frames as '#1  0x… in decompress () at src/compression/algorithms/pkware.rs:46' (path relative to the crate)."""
+    import re
     for l in stacks or []:
-        for crate in ("wow_mpq", "wow_m2", "wow_adt", "wow_wmo", "wow_blp", "wow_cdbc", "wow_wdt", "wow_wdl", "storm"):
-            k = l.find(crate + "::")
-            if k >= 0:
-                s = l[k:].split(" ")[0].split("(")[0]
-                return s
+        m = re.match(r"#\d+\s+(?:0x[0-9a-f]+ in )?(.+?) \(.*\) at (.+?):\d+", l)
+        if not m:
+            continue
+        fn, path = m.group(1), m.group(2)
+        fn = re.sub(r"<.*", "", fn)
+        fn = re.sub(r"\{closure[^}]*\}", "{closure}", fn)
+        if "/registry/src/" in path or path.startswith("/rustc/"):
+            continue
+        for cd in CRATE_DIRS:
+            full = path if os.path.isabs(path) else os.path.join(REPO, cd, path)
+            if os.path.isabs(path):
+                if ("/" + cd + "/") in path and os.path.exists(path):
+                    return f"{fn}@{os.path.basename(cd)}/{path.split('/' + cd + '/', 1)[1]}"
+            elif os.path.exists(full):
+                return f"{fn}@{os.path.basename(cd)}/{path}"
     return "unknown"
 
 
